@@ -144,14 +144,19 @@ class TraitSet(set):
             The updated set.
         """
 
-        old_set = self.copy()
-        retval = super().__iand__(value)
-        removed = old_set.difference(self)
+        if not isinstance(value, (set, frozenset)):
+            return NotImplemented
+
+        # Remove what is missing from "value" instead of calling
+        # set.__iand__: the latter may replace validated items by equal but
+        # never validated objects taken from "value" (1 by True or 1.0).
+        removed = self.difference(value)
+        super().difference_update(removed)
 
         if len(removed) > 0:
             self.notify(removed, set())
 
-        return retval
+        return self
 
     def __ior__(self, value):
         """ Return self |= value.
@@ -314,9 +319,10 @@ class TraitSet(set):
             The other iterables.
         """
 
-        old_set = self.copy()
-        super().intersection_update(*args)
-        removed = old_set.difference(self)
+        # See __iand__: keep our own (validated) items, never equal objects
+        # taken from the arguments.
+        removed = self.difference(self.intersection(*args))
+        super().difference_update(removed)
 
         if len(removed) > 0:
             self.notify(removed, set())
